@@ -2,7 +2,10 @@
 (DESIGN 7, C16).
 
 Three layers, all run on every invocation:
-  1. Coq obligations of Properties_C16.v (theorems about every schedule of the policy / container models).
+  1. Coq obligations of Properties_C16.v (theorems about every schedule of the policy / container models:
+     StripedSet with both policies, CuckooSet with the striping policy; the cuckoo linearizability theorem is for
+     traces in which resize() did not drop an item (C17), the no-duplicate theorem is unconditional; CuckooSet with
+     the refinable policy is covered by layers 2 and 3 only).
   2. Step correspondence: extracted models (Model/StripedConc.v, Model/CuckooConc.v) against the real intrusive
      StripedSet / CuckooSet under the deterministic scheduler, same programs and schedules, event logs compared
      line by line.
@@ -10,6 +13,10 @@ Three layers, all run on every invocation:
      verified extracted `lincheck` (SetSpec / MapSpec); an end-of-case monitor (contains / erase / erase again of
      every key by the main thread, item counter) is appended to the history and also checked directly
      (duplicate key, counter mismatch).
+One cuckoo case in four is 'crowded' (one table-1 probe set for all keys, two buckets, insert-heavy) so that
+relocation faults, the relocation limit and resizes under contention are exercised.  A run that reaches the step
+limit (seen only as a lock-step livelock of the round-robin tail of a schedule on the refinable policy's m_access /
+m_Owner words) is counted and skipped.
 """
 import os, json, hashlib, subprocess, threading
 import vcheck, conc_check
